@@ -8,6 +8,7 @@ import (
 	"path/filepath"
 	"sort"
 	"strings"
+	"sync"
 	"testing"
 	"time"
 
@@ -212,7 +213,33 @@ func c17prop(ev *evid.Rec) func(rt *rapid.T) {
 						checkFile("after a refused kick of a protected user")
 						return
 					}
-					if !okReply(admin.Request(hlref.TranDisconnectUser, fs...)) {
+					if opt != 0 && rapid.IntRange(0, 2).Draw(rt, "reloadsMeanwhile") == 0 {
+						// the operator's reload request (SIGHUP) arrives while the ban is being recorded
+						rec("  (ban list reloaded from four goroutines meanwhile)")
+						rid := admin.NewID()
+						admin.SendAsync(hlref.Tran{Type: hlref.TranDisconnectUser, ID: rid, Fields: fs}.Encode())
+						var rg sync.WaitGroup
+						for g := 0; g < 4; g++ {
+							rg.Add(1)
+							go func() {
+								defer rg.Done()
+								for k := 0; k < 8; k++ {
+									_ = w.Bans.Load()
+								}
+							}()
+						}
+						rg.Wait()
+						settle(0)
+						ok := false
+						for _, t := range admin.TakeInbox() {
+							if t.IsReply == 1 && t.ID == rid && t.Err == 0 {
+								ok = true
+							}
+						}
+						if !ok {
+							fail("disconnect request refused")
+						}
+					} else if !okReply(admin.Request(hlref.TranDisconnectUser, fs...)) {
 						fail("disconnect request refused")
 					}
 					switch opt {
@@ -247,6 +274,9 @@ func c17prop(ev *evid.Rec) func(rt *rapid.T) {
 					}
 					if opt != 0 {
 						checkFile("after kick")
+						if b, _ := w.Bans.IsBanned(u.addr); !b {
+							fail("the ban of %s was acknowledged and is in the file, but the running server does not enforce it", u.addr)
+						}
 					}
 				},
 				"kickWhileLeaving": func(rt *rapid.T) {
